@@ -9,8 +9,8 @@ from vf.ref import introspect as I
 from tartiflette import Resolver, Directive, Scalar, TypeResolver
 
 META = {
-    "bounds": "9 SDL models in up to 3 declaration orders (minimal; every kind once; wrappers to depth 3; defaults of every literal kind; `extend` of every kind + custom root names; custom directives / "
-              "@deprecated / @nonIntrospectable; schema-level @nonIntrospectable; implementers declared before/after their interface; one definition per file, files without trailing newline ending in a bare name / comment / string) x 4 ways of supplying the SDL (string, file, list of files, directory); "
+    "bounds": "10 SDL models in up to 3 declaration orders (minimal; every kind once; wrappers to depth 3; defaults of every literal kind; `extend` of every kind + custom root names; custom directives / "
+              "@deprecated / @nonIntrospectable; schema-level @nonIntrospectable; implementers declared before/after their interface; names starting with one underscore on every element kind; a directive-only `extend schema` followed by further extensions; one definition per file, files without trailing newline ending in a bare name / comment / string) x 4 ways of supplying the SDL (string, file, list of files, directory); "
               "`__type(name:)` argument symbolic (all strings); includeDeprecated absent/null/true/false",
     "outside": "SDL outside the 7 models (the lark grammar/transformers only ever see these concrete renderings: a finite catalogue); declared names themselves are concrete "
                "(bake inserts them into dicts, which realises a symbolic name)",
@@ -91,6 +91,21 @@ M8 = [
     'directive @tag(s: String = "end") on FIELD',
     "interface I { i: Int }",
 ]
+# names starting with a single underscore (only `__` is reserved) on every kind of declared element; a schema extension that only adds a directive,
+# followed by further extensions (which must still be merged)
+M9 = [
+    "directive @tag(n: Int) on SCHEMA | OBJECT",
+    "type Query { a: Int _id: ID _: Int f(_a: Int = 1, i: _In): _T }",
+    "type _T { _x: Int x_: Int }",
+    "input _In { _f: Int = 2 f_: Int }",
+    "enum _E { _V V_ }",
+    "interface _I { _i: Int }",
+    "type M { set: Int _set: Int }",
+    "extend schema @tag(n: 1)",
+    "extend type Query { b: Int e: _E }",
+    "extend schema { mutation: M }",
+    "extend type _T implements _I { _i: Int }",
+]
 M6S = ["schema @nonIntrospectable { query: Query }", "type Query { a: Int b: Int @deprecated }"]
 def _orders(chunks):
     """declaration order must not matter: original, reversed, rotated (extensions kept after everything else when reversed)"""
@@ -99,7 +114,7 @@ def _orders(chunks):
     return [chunks, base[::-1] + ext[::-1], base[half:] + base[:half] + ext]
 
 
-MODELS = {"M1": M1, "M2": M2, "M3": M3, "M4": M4, "M5": M5, "M6": M6, "M7": M7, "M8": M8, "M6S": M6S}
+MODELS = {"M1": M1, "M2": M2, "M3": M3, "M4": M4, "M5": M5, "M6": M6, "M7": M7, "M8": M8, "M9": M9, "M6S": M6S}
 ONE_FILE_PER_CHUNK = {"M8"}
 for _n in ("M2", "M5", "M7"):
     _o = _orders(MODELS[_n])
